@@ -21,7 +21,7 @@ locals: paths are rooted at declaration ids; keys render roots by their type.
 """
 from .build import AnalysisBroken
 
-CAP = 24          # max disjuncts kept per program point
+CAP = 32          # max disjuncts kept per program point
 LOOP_ROUNDS = 3   # loop iterations with full disjuncts before widening
 
 NORETURN_LIBC = frozenset(['exit', '_exit', '_Exit', 'abort', '__assert_fail', 'quick_exit', 'longjmp', '__builtin_unreachable', '__builtin_trap'])
@@ -84,18 +84,20 @@ UNKNOWN = Val()
 
 
 class St:
-    __slots__ = ('nul', 'vs', 'ali')
+    __slots__ = ('nul', 'vs', 'ali', 'pc')
 
-    def __init__(self, nul=None, vs=None, ali=None):
+    def __init__(self, nul=None, vs=None, ali=None, pc=None):
         self.nul = nul if nul is not None else {}
         self.vs = vs if vs is not None else {}
         self.ali = ali if ali is not None else {}   # local -> path it was copied from
+        self.pc = pc if pc is not None else {}      # pure predicate call -> (truth, arg paths)
 
     def copy(self):
-        return St(dict(self.nul), dict(self.vs), dict(self.ali))
+        return St(dict(self.nul), dict(self.vs), dict(self.ali), dict(self.pc))
 
     def key(self):
-        return (frozenset((k, v[0]) for k, v in self.nul.items()), frozenset(self.vs.items()), frozenset(self.ali.items()))
+        return (frozenset((k, v[0]) for k, v in self.nul.items()), frozenset(self.vs.items()), frozenset(self.ali.items()),
+                frozenset((k, v[0]) for k, v in self.pc.items()))
 
     def kill(self, p):
         alt = p[:-2] + '->' if p.endswith('[]') else None
@@ -106,6 +108,10 @@ class St:
         dead = [q for q, o in self.ali.items() if _ext(p, q) or _ext(p, o) or (alt and (q.startswith(alt) or o.startswith(alt)))]
         for q in dead:
             del self.ali[q]
+        if self.pc:
+            dead = [k for k, (t, ps) in self.pc.items() if any(_ext(p, q) or (alt and q.startswith(alt)) for q in ps)]
+            for k in dead:
+                del self.pc[k]
 
     def copy_facts(self, src, dst):
         if src == dst or _ext(dst, src) or _ext(src, dst):
@@ -176,7 +182,8 @@ def join_states(sts):
         if ok:
             vs[k] = acc
     ali = {k: v for k, v in first.ali.items() if all(s.ali.get(k) == v for s in sts[1:])}
-    return St(nul, vs, ali)
+    pc = {k: v for k, v in first.pc.items() if all(s.pc.get(k) == v for s in sts[1:])}
+    return St(nul, vs, ali, pc)
 
 
 def _vs_union(a, b):
@@ -199,7 +206,27 @@ def norm(sts):
             seen.add(k)
             out.append(s)
     if len(out) > CAP:
-        out = [join_states(out)]
+        # too many disjuncts: merge the most similar pairs first, so that facts shared by a family of paths survive
+        sets = [frozenset((k, v[0]) for k, v in st.nul.items()) | frozenset(st.vs.items()) for st in out]
+        while len(out) > CAP // 2:
+            best = None
+            n = len(out)
+            for i in range(n):
+                si = sets[i]
+                for j in range(i + 1, n):
+                    d = len(si ^ sets[j])
+                    if best is None or d < best[0]:
+                        best = (d, i, j)
+                        if d <= 1:
+                            break
+                if best is not None and best[0] <= 1:
+                    break
+            _, i, j = best
+            m = join_states([out[i], out[j]])
+            out[i] = m
+            sets[i] = frozenset((k, v[0]) for k, v in m.nul.items()) | frozenset(m.vs.items())
+            del out[j]
+            del sets[j]
     return out
 
 
@@ -238,6 +265,7 @@ class World:
                 self.enum_universe.setdefault(en, frozenset(names))
         self._scan_gwrites()
         self.recursive = self._recursive_functions()
+        self.pure = self._pure_functions()
         # calls whose reaching states are kept for the rules: diagnostics, assertions, constructors, size dispatchers
         self.record_calls = set(['error', 'error_tok', 'warn_tok', 'new_type', '__assert_fail'])
         for u in self.units.values():
@@ -246,6 +274,54 @@ class World:
                     a = c.args()
                     if a and (a[0].str_value() or '').startswith('internal error'):
                         self.record_calls.add(f)
+
+    def _pure_functions(self):
+        """functions whose result depends only on their arguments and what they point to, and that write nothing but
+        their own locals (syntactic: no store through a pointer/global, callees pure)"""
+        libc = set(['strcmp', 'strncmp', 'strcasecmp', 'strncasecmp', 'memcmp', 'strlen', 'isalpha', 'isdigit', 'isalnum', 'isspace', 'isxdigit', 'ispunct', 'tolower', 'toupper'])
+        cand = {}
+        for un, u in self.units.items():
+            for f, fd in u.functions.items():
+                if len(self.fn_unit.get(f, ())) != 1:
+                    continue
+                ok = True
+                callees = set()
+                for n in fd.walk():
+                    tgt = None
+                    if n.kind in ('BinaryOperator', 'CompoundAssignOperator') and (n.opcode == '=' or n.kind == 'CompoundAssignOperator'):
+                        tgt = n.inner[0]
+                    elif n.kind == 'UnaryOperator' and n.opcode in ('++', '--'):
+                        tgt = n.inner[0]
+                    elif n.kind == 'UnaryOperator' and n.opcode == '&':
+                        t = n.inner[0].strip()
+                        if not (t.kind == 'DeclRefExpr' and t.ref_kind == 'FunctionDecl'):
+                            ok = False
+                    elif n.kind == 'CallExpr':
+                        c = n.callee()
+                        if c is None:
+                            ok = False
+                        else:
+                            callees.add(c)
+                    elif n.kind == 'VarDecl' and n.d.get('storageClass') == 'static':
+                        ok = False
+                    if tgt is not None:
+                        t = tgt.strip()
+                        if not (t.kind == 'DeclRefExpr' and t.ref_kind in ('VarDecl', 'ParmVarDecl') and t.ref_id not in u.by_id):
+                            ok = False
+                    if not ok:
+                        break
+                if ok and any(n.kind == 'DeclRefExpr' and n.ref_kind == 'VarDecl' and n.ref_id in u.by_id for n in fd.walk()):
+                    ok = False      # reads a global
+                if ok:
+                    cand[f] = callees
+        changed = True
+        while changed:
+            changed = False
+            for f in list(cand):
+                if any(c not in cand and c not in libc for c in cand[f]):
+                    del cand[f]
+                    changed = True
+        return set(cand) | libc
 
     def _recursive_functions(self):
         """functions on a cycle of the direct call graph (no return-fact summaries for those)"""
@@ -341,6 +417,14 @@ class Engine:
         self.exit_states = []
         self.keep_exit_states = bool(self.hooks.get('keep_exit_states'))
         self.ret_facts = []    # (const value or None, state) per normal return
+        # pure calls whose outcome is worth remembering: the same call text occurs at least twice in this function
+        cnt = {}
+        for c in self.fd.calls():
+            cal = c.callee()
+            if cal in W.pure:
+                k = (cal, tuple(a.src() for a in c.args()))
+                cnt[k] = cnt.get(k, 0) + 1
+        self.repeated_pure = set(k for k, n in cnt.items() if n >= 2)
         self.ret_consts = []   # per value-return: frozenset of enumerators | None (unknown)
         self.gstores = []      # (global name, frozenset of enumerators | None)
 
@@ -891,6 +975,15 @@ class Engine:
                 rv = self.W.ret_vals.get(c)
                 if rv and r.vs is None:
                     r.vs = ('in', rv)
+                if c in self.W.pure and not is_ptr_type(e.type) and (c, tuple(a.src() for a in args)) in self.repeated_pure:
+                    pk = self.pure_key(c, args, vals)
+                    if pk is not None:
+                        known = s.pc.get(pk[0])
+                        if known is not None:
+                            out.append((s, Val(const=1 if known[0] else 0)))
+                            continue
+                        r.addr_of = None
+                        r.ctype = pk     # carried to truth(): lets the branch remember the outcome
                 summ = self.W.fact_summ.get(c) if self.W.resolve(self.u, c) is not None else None
                 if summ is not None:
                     done = False
@@ -904,6 +997,22 @@ class Engine:
                         continue
                 out.append((s, r))
         return out
+
+    def pure_key(self, c, args, vals):
+        parts = []
+        paths = []
+        for a, v in zip(args, vals):
+            if v.path is not None:
+                parts.append(v.path)
+                paths.append(v.path)
+            elif v.const is not None:
+                parts.append(str(v.const))
+            else:
+                sv = a.str_value()
+                if sv is None:
+                    return None
+                parts.append(repr(sv))
+        return ('%s(%s)' % (c, ','.join(parts)), frozenset(paths))
 
     def apply_summary(self, S, d, vals):
         """add the callee's return facts (about what its parameters point to) to S; None if contradictory"""
@@ -1017,6 +1126,12 @@ class Engine:
     def truth(self, S, v):
         if v.const is not None:
             return ([S], []) if v.const != 0 else ([], [S])
+        if isinstance(v.ctype, tuple) and v.path is None:
+            k, ps = v.ctype
+            T, F = S, S.copy()
+            T.pc[k] = (True, ps)
+            F.pc[k] = (False, ps)
+            return [T], [F]
         if v.nul == 'NN':
             return [S], []
         if v.nul == 'NULL':
